@@ -1361,11 +1361,27 @@ class _TreeItems:
     def __iter__(self):
         bucket = self.firstbucket
         itertype = self.itertype
-        iterargs = self.iterargs
+        iterargs = tuple(self.iterargs)
+        min, max, excludemin, excludemax = (
+            iterargs + (_marker, _marker, False, False)[len(iterargs):]
+        )
+        # An exclusive end without a bound excludes only the smallest
+        # (largest) key of the whole tree, i.e. the first key of the
+        # first bucket (the last key of the last bucket), not one key
+        # of every bucket.
+        open_min = excludemin and (min is _marker or min is None)
+        open_max = excludemax and (max is _marker or max is None)
+        first = True
         done = 0
         # Note that we don't mind if the first bucket yields no
         # results due to an idiosyncrasy in how range searches are done.
         while bucket is not None:
+            iterargs = (
+                min, max,
+                excludemin and (first or not open_min),
+                excludemax and (bucket._next is None or not open_max),
+            )
+            first = False
             for k in getattr(bucket, itertype)(*iterargs):
                 yield k
                 done = 0
